@@ -184,3 +184,5 @@ func readValue(k Kind, p unsafe.Pointer) (uint64, error) {
 	}
 	return 0, nil
 }
+
+func ptrOf[T any](p *T) unsafe.Pointer { return unsafe.Pointer(p) }
